@@ -7,129 +7,165 @@ mod c19 {
     use std::task::{Context, Poll, RawWaker, RawWakerVTable, Waker};
 
     fn noop() {}
-
-    // ---- counting waker (ghost observation of wake-ups)
-    static mut WAKES: u32 = 0;
-    unsafe fn w_clone(_: *const ()) -> RawWaker { RawWaker::new(std::ptr::null(), &VTABLE) }
-    unsafe fn w_wake(_: *const ()) { unsafe { WAKES += 1; } }
-    unsafe fn w_drop(_: *const ()) {}
-    static VTABLE: RawWakerVTable = RawWakerVTable::new(w_clone, w_wake, w_wake, w_drop);
-    fn waker() -> Waker { unsafe { Waker::from_raw(RawWaker::new(std::ptr::null(), &VTABLE)) } }
-
-    /// Steps of the schedule. Updates are bit sets; merging is union, so "every update observed in exactly
-    /// one received value" is: received values are pairwise disjoint and their union is what was merged.
-    fn run_schedule<const STEPS: usize>() {
-        let (tx, mut rx) = merge_channel::<u8>();
-        let mut tx = Some(tx);
-        let rx_ptr: *mut Receiver<u8> = &mut rx;
-        // (concrete future type: no dynamic dispatch)
-        let mut fut = None;
-        if false {
-            fut = Some(Box::pin(unsafe { (*rx_ptr).recv() }));
+    // std::sync::Mutex::lock is replaced by try_lock + a CHECK (not an assumption) that the lock is free: these
+    // harnesses are sequential, so the futex slow path (spin loop, system call, errno/io::Error plumbing with
+    // recursive drop glue) is unreachable; removing it from the model is what makes the schedules tractable.
+    fn lock_uncontended<T>(m: &std::sync::Mutex<T>) -> std::sync::LockResult<std::sync::MutexGuard<'_, T>> {
+        match m.try_lock() {
+            Ok(g) => Ok(g),
+            Err(std::sync::TryLockError::Poisoned(p)) => Err(p),
+            Err(std::sync::TryLockError::WouldBlock) => panic!("mutex contended in a sequential harness"),
         }
-        let w = waker();
-        let mut cx = Context::from_waker(&w);
+    }
 
+    // wake-ups are observed through the Notify contract model's counter; polls use a no-op waker
+    use super::notify_model::wakes;
+    fn waker() -> Waker { Waker::noop().clone() }
+
+    /// The world: the real channel plus ghost state. Updates are bit sets; merging is union, so "every update
+    /// observed in exactly one received value" is: received values are pairwise disjoint and each equals what was
+    /// merged since the previous receive.
+    /// (The steps are written out textually in the harnesses - no harness loop - so that the unwinding bound only
+    /// has to cover the loops of the code under test: recv's retry loop and Notified's state machine.)
+    /// (the receive future has a concrete, if unnameable, type `F`: no `dyn`, so no extra vtables for CBMC's
+    /// function-pointer resolution)
+    fn start_recv(rx: *mut Receiver<u8>) -> impl Future<Output = Option<u8>> {
+        unsafe { (*rx).recv() }
+    }
+    /// (the future lives in ONE pinned stack slot that is reused: heap objects are untyped byte arrays for CBMC and
+    /// every write through a pointer with several candidate targets is encoded bytewise for each of them)
+    struct World<'s, F> {
+        tx: Option<Sender<u8>>,
+        rx: *mut Receiver<u8>,
+        fut: Pin<&'s mut Option<F>>,
         // ghost state
-        let mut pending: u8 = 0; // bits merged and not yet received (the abstract slot; 0 = empty)
-        let mut delivered: u8 = 0; // union of everything received
-        let mut next_bit: u8 = 1;
-        let mut parked = false; // the current recv future returned Pending on its last poll
-        let mut wakes_at_park: u32 = 0;
-        let mut finished = false; // recv returned None
+        pending: u8,   // bits merged and not yet received (the abstract slot; 0 = empty)
+        delivered: u8, // union of everything received
+        next_bit: u8,
+        parked: bool,  // the current recv future returned Pending on its last poll
+        wakes_at_park: u32,
+        finished: bool, // recv returned None
+    }
 
-        let mut i = 0;
-        while i < STEPS {
-            let step: u8 = kani::any();
+    impl<F: Future<Output = Option<u8>>> World<'_, F> {
+        fn step(&mut self, step: u8, cx: &mut Context<'_>, mk: impl Fn(*mut Receiver<u8>) -> F) {
             match step {
                 // producer merges one fresh update into the slot
-                0 if tx.is_some() && next_bit != 0 && next_bit < 64 => {
-                    let b = next_bit;
-                    next_bit <<= 1;
-                    let r = tx.as_mut().unwrap().modify(|slot| *slot = Some(slot.unwrap_or(0) | b));
+                0 if self.tx.is_some() && self.next_bit != 0 && self.next_bit < 64 => {
+                    let b = self.next_bit;
+                    self.next_bit <<= 1;
+                    let r = self.tx.as_mut().unwrap().modify(|slot| *slot = Some(slot.unwrap_or(0) | b));
                     assert!(r.is_ok(), "receiver alive: modify succeeds");
-                    pending |= b;
-                    if parked {
+                    self.pending |= b;
+                    if self.parked {
                         // no lost wake-up: a parked consumer has been woken once a value is pending
-                        assert!(unsafe { WAKES } > wakes_at_park, "parked consumer woken by modify");
+                        assert!(wakes() > self.wakes_at_park, "parked consumer woken by modify");
                     }
                 }
                 // producer goes away
-                1 if tx.is_some() => {
-                    tx = None;
-                    if parked {
-                        assert!(unsafe { WAKES } > wakes_at_park, "parked consumer woken by sender drop");
+                1 if self.tx.is_some() => {
+                    self.tx = None;
+                    if self.parked {
+                        assert!(wakes() > self.wakes_at_park, "parked consumer woken by sender drop");
                     }
                 }
-                // consumer starts a receive (if none in progress)
-                2 if fut.is_none() && !finished => {
-                    fut = Some(Box::pin(unsafe { (*rx_ptr).recv() }));
-                    parked = false;
+                // consumer starts a receive (if none in progress) and polls it once
+                2 if self.fut.is_none() && !self.finished => {
+                    self.fut.set(Some(mk(self.rx)));
+                    self.parked = false;
+                    self.poll(cx);
                 }
-                // consumer polls its receive
-                3 if fut.is_some() => {
-                    match fut.as_mut().unwrap().as_mut().poll(&mut cx) {
-                        Poll::Ready(Some(v)) => {
-                            assert!(v == pending, "received exactly the updates merged since the last receive");
-                            assert!(v != 0 && v & delivered == 0, "no update delivered twice");
-                            delivered |= v;
-                            pending = 0;
-                            fut = None;
-                            parked = false;
-                        }
-                        Poll::Ready(None) => {
-                            assert!(tx.is_none(), "end of stream only after the producer is gone");
-                            assert!(pending == 0, "... and only after the last pending value was taken");
-                            finished = true;
-                            fut = None;
-                            parked = false;
-                        }
-                        Poll::Pending => {
-                            assert!(pending == 0, "a pending value makes the poll Ready");
-                            assert!(tx.is_some(), "a gone producer makes the poll Ready");
-                            parked = true;
-                            wakes_at_park = unsafe { WAKES };
-                        }
-                    }
-                }
-                // consumer cancels its receive (drops the future) — may restart later
-                4 if fut.is_some() => {
-                    fut = None;
-                    parked = false;
+                // consumer polls its receive again
+                3 if self.fut.is_some() => self.poll(cx),
+                // consumer cancels its receive (drops the future) - may restart later
+                4 if self.fut.is_some() => {
+                    self.fut.set(None);
+                    self.parked = false;
                 }
                 _ => {}
             }
-            i += 1;
         }
-        // quiescence: whatever is still pending is obtainable by one more receive (nothing was lost)
-        fut = None;
-        if !finished {
-            let mut f = Box::pin(unsafe { (*rx_ptr).recv() });
-            match f.as_mut().poll(&mut cx) {
-                Poll::Ready(Some(v)) => assert!(v == pending && v != 0),
-                Poll::Ready(None) => assert!(pending == 0 && tx.is_none()),
-                Poll::Pending => assert!(pending == 0 && tx.is_some()),
+
+        fn poll(&mut self, cx: &mut Context<'_>) {
+            match self.fut.as_mut().as_pin_mut().unwrap().poll(cx) {
+                Poll::Ready(Some(v)) => {
+                    assert!(v == self.pending, "received exactly the updates merged since the last receive");
+                    assert!(v != 0 && v & self.delivered == 0, "no update delivered twice");
+                    self.delivered |= v;
+                    self.pending = 0;
+                    self.fut.set(None);
+                    self.parked = false;
+                }
+                Poll::Ready(None) => {
+                    assert!(self.tx.is_none(), "end of stream only after the producer is gone");
+                    assert!(self.pending == 0, "... and only after the last pending value was taken");
+                    self.finished = true;
+                    self.fut.set(None);
+                    self.parked = false;
+                }
+                Poll::Pending => {
+                    assert!(self.pending == 0, "a pending value makes the poll Ready");
+                    assert!(self.tx.is_some(), "a gone producer makes the poll Ready");
+                    self.parked = true;
+                    self.wakes_at_park = wakes();
+                }
+            }
+        }
+
+        /// quiescence: whatever is still pending is obtainable by one more receive (nothing was lost)
+        fn finish(&mut self, cx: &mut Context<'_>, mk: impl Fn(*mut Receiver<u8>) -> F) {
+            self.fut.set(None);
+            if !self.finished {
+                self.fut.set(Some(mk(self.rx)));
+                match self.fut.as_mut().as_pin_mut().unwrap().poll(cx) {
+                    Poll::Ready(Some(v)) => assert!(v == self.pending && v != 0),
+                    Poll::Ready(None) => assert!(self.pending == 0 && self.tx.is_none()),
+                    Poll::Pending => assert!(self.pending == 0 && self.tx.is_some()),
+                }
             }
         }
     }
 
-    #[kani::proof]
-    #[kani::unwind(5)]
-    #[kani::stub(std::rt::thread_cleanup, noop)]
-    fn c19_schedule_3() {
-        run_schedule::<3>();
+    macro_rules! schedule {
+        ($($s:expr),*) => {{
+            let (tx, mut rx) = merge_channel::<u8>();
+            let w = waker();
+            let mut cx = Context::from_waker(&w);
+            let slot = std::pin::pin!(None);
+            let mut world = World { tx: Some(tx), rx: &mut rx, fut: slot, pending: 0, delivered: 0, next_bit: 1,
+                                    parked: false, wakes_at_park: 0, finished: false };
+            $( world.step($s, &mut cx, start_recv); )*
+            world.finish(&mut cx, start_recv);
+        }};
     }
 
     #[kani::proof]
-    #[kani::unwind(7)]
+    #[kani::unwind(3)]
     #[kani::stub(std::rt::thread_cleanup, noop)]
+    #[kani::stub(std::sync::Mutex::lock, lock_uncontended)]
+    fn c19_schedule_3() {
+        schedule!(kani::any(), kani::any(), kani::any());
+    }
+
+    #[kani::proof]
+    #[kani::unwind(3)]
+    #[kani::stub(std::rt::thread_cleanup, noop)]
+    #[kani::stub(std::sync::Mutex::lock, lock_uncontended)]
     fn c19_schedule_5() {
-        run_schedule::<5>();
+        schedule!(kani::any(), kani::any(), kani::any(), kani::any(), kani::any());
+    }
+
+    #[kani::proof]
+    #[kani::unwind(3)]
+    #[kani::stub(std::rt::thread_cleanup, noop)]
+    #[kani::stub(std::sync::Mutex::lock, lock_uncontended)]
+    fn c19_schedule_7() {
+        schedule!(kani::any(), kani::any(), kani::any(), kani::any(), kani::any(), kani::any(), kani::any());
     }
 
     /// producer learns that the consumer is gone
     #[kani::proof]
-    #[kani::unwind(4)]
+    #[kani::unwind(3)]
     #[kani::stub(std::rt::thread_cleanup, noop)]
     fn c19_modify_after_receiver_drop() {
         let (mut tx, rx) = merge_channel::<u8>();
@@ -143,7 +179,7 @@ mod c19 {
 
     /// canary: claiming that a value can be received twice must be refuted
     #[kani::proof]
-    #[kani::unwind(4)]
+    #[kani::unwind(3)]
     #[kani::should_panic]
     #[kani::stub(std::rt::thread_cleanup, noop)]
     fn c19_canary_value_received_twice() {
